@@ -183,6 +183,34 @@ CHECKS["C14"] = dict(
     technique="symbolic execution of the real DBC writer with symbolic field widths + SMT; concrete runs of the real generation commands",
 )
 
+CHECKS["C06"] = dict(
+    engine="llsym",
+    category="model_checking",
+    text="For every schema of a family of flat CAN structs the real generator's C is compiled (precondition) and "
+         "lowered by clang-14 to IR, which llsym interprets with symbolic data: can_encode_msg_<m> on all in-range "
+         "field values must return (binding id, ceil(bits/8), layout packing) and can_decode_msg_<m> on all 2^80 "
+         "frames must return the layout extraction of every field (z3 validity per path); counterexamples are "
+         "recompiled natively with clang and gcc and run before they are reported.",
+    design_ref="DESIGN.md §4 C06",
+    note="Trusted: clang-14's lowering, llsym (own IR interpreter; every reported counterexample is confirmed natively), "
+         "z3 FP theory for the runtime's *1.0 + 0.0. Outside: muxed/big-endian C messages, NaN payloads and the sign of "
+         "zero, scale/offset other than the generated 1.0/0.0.",
+    technique="symbolic execution of clang's LLVM IR of the generated C (own interpreter) + SMT validity vs. layout packing",
+)
+CHECKS["C19"] = dict(
+    engine="llsym",
+    category="model_checking",
+    text="llsym interprets the IR of the generated can_send_<dev>_msgs_scheduled with (1) an arbitrary symbolic static "
+         "state, symbolic 32-bit time and arbitrary device bytes - one inductive step: frames sent, their order and "
+         "bytes (vs. can_encode_msg of the same device) and the post-state equal a 10-line reference automaton, which "
+         "covers call histories of any length; (2) k-step bounded model checking from the C initial state with "
+         "arbitrary timestamps, wrap-around included.",
+    design_ref="DESIGN.md §4 C19",
+    note="Bound: devices of 1..4 messages with periods from {-1, absent, 1, 2, 15, 20, 1000, 2^31-1}; k = 3 (quick) / 6 "
+         "(thorough). Trusted as C06. The reference state is the C state, so no invariant is needed for the inductive step.",
+    technique="symbolic execution of clang's LLVM IR of the generated scheduler: 1-step induction from arbitrary state + k-step BMC, SMT vs. reference automaton",
+)
+
 NOT_APPLICABLE = {
     "C07": "Subject is the Lark Earley parser with a dynamic regex lexer over all texts: it cannot be executed "
            "symbolically by CrossHair or by the proxy engine within reach (DESIGN.md §6); grammar-based generation would "
